@@ -59,7 +59,7 @@ def rangeLen (lo hi step : Int) : Nat :=
 /-- `list(range(*slice(start, stop, step).indices(n)))`. -/
 def slicePositions (n : Nat) (start stop : Option Int) (step : Int) : List Nat :=
   let lh := sliceIndices n start stop step
-  (List.range (rangeLen lh.1 lh.2 step)).map fun j => (lh.1 + (j : Int) * step).toNat
+  (List.range (rangeLen lh.1 lh.2 step)).map fun (j : Nat) => (lh.1 + (j : Int) * step).toNat
 
 /-- Replace the (single) ellipsis by full slices and pad with full slices at the end, so that the result
 has exactly one entry per dimension.  `none`: too many indices or more than one ellipsis. -/
